@@ -41,6 +41,7 @@ def run(ctx):
         ctx.guard("C17", "traits", lambda: vis.trait_census(ctx, prog, scope='position_array::|FuzzyHashCompareTarget'))
         ctx.guard("C17", "casts", lambda: casts.census(ctx, prog, scope='compare::position_array::', floor=3))
         ctx.guard("C17", "const values", lambda: data.const_census(ctx, prog, data.CONST_SCOPES["C17"], floor=1))
+        ctx.guard("C17", "panic conditions", lambda: beliefs.live_census(ctx, prog, beliefs.SCOPES["C17"][0]))
         ctx.guard("C17", "element-asserts", lambda: validate.element_range_asserts(ctx, prog))
         ctx.guard("C17", "initialisers", lambda: typestate.initialisers_complete(ctx, prog))
         ctx.guard("C17", "summaries", lambda: summary.check(ctx, prog, 'compare::position_array::|internals::utils::|FuzzyHashCompareTarget::(new|init_from|block_hash_[12]|is_equiv|full_eq|log_block_size|block_size)|core::default::Default>::default', floor=10))
